@@ -14,10 +14,12 @@ Modelling assumptions (recorded here, used by the theorems of Rmk/Proofs/Virtual
  * the source answers `none` for a leaf key; the real source raises a NavigationError when asked for the
    children of a leaf key (`VirtualNode.get_left` itself does not check `is_leaf()` first);
  * the children handed out by the source are again virtual nodes over the same source;
- * `RebindableNode.setter` does not test `self.is_leaf()` for the node it is called on, so
-   `setter(expand=True)` on a *top-level* virtual leaf does not expand (the later `get_left` raises)
-   whereas a `RootNode` with the same root would: `setPathM` follows `setPath` (expands), `setPathMTop`
-   is the variant faithful for that corner; they differ only there (`setPathMTop_eq`).
+ * `RebindableNode.setter` does not test `self.is_leaf()` for the node it is called on, so before the
+   repair D15 `setter(expand=True)` on a *top-level* virtual leaf did not expand (the later `get_left`
+   raised) whereas a `RootNode` with the same root does: `setPathM` follows `setPath` (expands);
+   `setPathMTop` is the variant faithful to the UNREPAIRED code in that corner (kept to state the defect:
+   they differ only there, `setPathMTop_eq`).  Since D15 `VirtualNode.setter` treats a virtual leaf like the
+   materialised leaf, and `setterM` is `setPathM`.
 
 This file is a MODEL file: core Lean only, everything executable.
 -/
@@ -126,6 +128,10 @@ def setPathMTop (H : Hash) (src : Src) (expand : Bool) (m : MNode) (p : List Boo
   | _, _ => setPathM H src expand m p v
 
 def setterM (H : Hash) (src : Src) (m : MNode) (g : Nat) (expand : Bool) (v : MNode) : Option MNode :=
+  if g = 0 then none else setPathM H src expand m (gbits g) v
+
+/-- `setter` of the code BEFORE the repair D15 (a top-level virtual leaf is never expanded) -/
+def setterMUnrepaired (H : Hash) (src : Src) (m : MNode) (g : Nat) (expand : Bool) (v : MNode) : Option MNode :=
   if g = 0 then none else setPathMTop H src expand m (gbits g) v
 
 /-! ### the relation to materialised trees -/
